@@ -450,3 +450,29 @@ func histTags(h *history) (tags []string, nontrivial bool) {
 	}
 	return tags, nev > 0
 }
+
+// bigTrackHistory: one track whose chunk body is about `body` bytes (a few large text events plus notes), optionally
+// a second small track: chunk lengths above 2^16 (the length field's upper bytes come into play)
+func bigTrackHistory(r *Rng, body int) *history {
+	h := &history{format: 1, tf: genTF(r), nors: r.Bool()}
+	left := body
+	for left > 0 {
+		n := 17000
+		if left < n+40 {
+			n = left - 10
+			if n < 1 {
+				n = 1
+			}
+		}
+		txt := make([]byte, n)
+		for i := range txt {
+			txt[i] = byte(0x20 + r.Intn(0x5F))
+		}
+		h.ops = append(h.ops, histOp{'a', 0, uint32(r.Intn(500)), [][]byte{[]byte(smf.MetaText(string(txt)))}})
+		h.ops = append(h.ops, histOp{'a', 0, uint32(r.Intn(500)), [][]byte{{0x90, byte(r.Intn(128)), byte(1 + r.Intn(127))}}})
+		left -= n + 12
+	}
+	h.ops = append(h.ops, histOp{'c', 0, 0, nil}, histOp{'s', 0, 0, nil})
+	h.ops = append(h.ops, histOp{'a', 1, 5, [][]byte{{0x91, 60, 100}}}, histOp{'c', 1, 0, nil}, histOp{'s', 1, 0, nil})
+	return h
+}
